@@ -32,7 +32,7 @@ fn focus_of(plan: &Plan) -> Focus {
 	}
 }
 
-fn gen_workload(rng: &mut Rng, focus: Focus, nkeys: u16, tags: &mut TagGen, commits: u64, gated: bool, allow_reopen: bool, budget: u32) -> Vec<Step> {
+fn gen_workload(rng: &mut Rng, focus: Focus, nkeys: u16, tags: &mut TagGen, commits: u64, gated: bool, allow_reopen: bool, budget: u32, big: bool) -> Vec<Step> {
 	let mut steps = Vec::new();
 	let (max_writes, sync_pct) = match focus {
 		Focus::C02 => (3, 35),
@@ -42,7 +42,23 @@ fn gen_workload(rng: &mut Rng, focus: Focus, nkeys: u16, tags: &mut TagGen, comm
 		Focus::C10 => (4, 25),
 	};
 	for _ in 0..commits {
-		write_txn(rng, 0, nkeys, tags, max_writes, sync_pct, budget, &mut steps);
+		if big && rng.chance(2, 3) {
+			// a transaction whose log record spans several 32 KiB blocks (First / Middle / Last
+			// fragments, several write(2) calls per append)
+			steps.push(Step::Begin { a: 0, mode: ModeS::ReadWrite });
+			let mut left = budget;
+			for _ in 0..rng.range(1, 3) {
+				let len = (rng.range(12_000, 90_000) as u32).min(left.saturating_sub(100));
+				if len < 1000 {
+					break;
+				}
+				steps.push(Step::Set { a: 0, k: rng.below(nkeys as u64) as u16, v: tags.next(len), ts: None });
+				left = left.saturating_sub(len + 100);
+			}
+			steps.push(Step::Commit { a: 0, sync: rng.below(100) < sync_pct });
+		} else {
+			write_txn(rng, 0, nkeys, tags, max_writes, sync_pct, budget, &mut steps);
+		}
 		match rng.below(12) {
 			0 | 1 => steps.push(physical_step(rng, allow_reopen)),
 			2 => steps.push(Step::FlushWal { sync: rng.chance(1, 2) }),
@@ -118,8 +134,16 @@ fn gen(case_seed: u64, _case: u64, tier: Tier, id: &str, focus: Focus) -> Plan {
 		Tier::Quick => rng.range(4, 22),
 		Tier::Thorough => rng.range(4, 36),
 	};
+	// an eighth of the cases: big memtables and transactions whose log records span several
+	// blocks (everything else keeps records well below one block)
+	let big = !matches!(focus, Focus::C10 | Focus::C11) && rng.chance(1, 8);
+	let mut commits = commits;
+	if big {
+		opts.memtable = *rng.pick(&[262_144usize, 400_000]);
+		commits = rng.range(3, 9);
+	}
 	let budget = txn_budget(opts.memtable);
-	let mut steps = gen_workload(&mut rng, focus, nkeys, &mut tags, commits, gated, true, budget);
+	let mut steps = gen_workload(&mut rng, focus, nkeys, &mut tags, commits, gated, true, budget, big);
 	if focus == Focus::C10 {
 		one_write_per_key(&mut steps);
 	}
@@ -139,7 +163,7 @@ fn gen(case_seed: u64, _case: u64, tier: Tier, id: &str, focus: Focus) -> Plan {
 		let c2 = rng.range(2, 10);
 		// the second generation runs later than the first (commit timestamps keep growing)
 		let mut s2 = vec![Step::RecoverSettle, Step::Advance { ns: 10_000_000 }];
-		s2.extend(gen_workload(&mut rng, focus, nkeys, &mut tags, c2, false, false, budget));
+		s2.extend(gen_workload(&mut rng, focus, nkeys, &mut tags, c2, false, false, budget, big));
 		if focus == Focus::C10 {
 			one_write_per_key(&mut s2);
 		}
